@@ -129,7 +129,9 @@ macro_rules! host_harness {
 host_harness!(host_call_no_args, 0, 0, 0);
 host_harness!(host_call_one_arg, 1, 0, 0);
 host_harness!(host_call_three_args, 3, 0, 0);
+#[cfg(feature = "verif_experimental")] // accepted vectors: create_from_variables reads parameter types back from the heap Function, > 800 s
 host_harness!(host_call_int_int, 2, 0, 0);
+#[cfg(feature = "verif_experimental")] // accepted vectors: create_from_variables reads parameter types back from the heap Function, > 800 s
 host_harness!(host_call_int_float, 2, 0, 1);
 host_harness!(host_call_int_bool, 2, 0, 2);
 host_harness!(host_call_float_int, 2, 1, 0);
@@ -188,9 +190,13 @@ macro_rules! binding_harness {
         }
     };
 }
+#[cfg(feature = "verif_experimental")] // > 20 min
 binding_harness!(host_call_binds_parameter_ordinary, Some("f"), "a");
+#[cfg(feature = "verif_experimental")] // > 20 min
 binding_harness!(host_call_binds_parameter_named_like_the_function, Some("f"), "f");
+#[cfg(feature = "verif_experimental")] // > 20 min
 binding_harness!(host_call_binds_parameter_named_function_of_anonymous, None, "function");
+#[cfg(feature = "verif_experimental")] // > 20 min
 binding_harness!(host_call_binds_parameter_of_anonymous, None, "a");
 
 /// a parameter named like the function itself: the in-language call binds the function's own name
